@@ -7,7 +7,9 @@ Model (JSON):
             "opts": {...},             # loader options, see OPT_KEYS
             "how": "name" | "pathstr" | "pathobj" | "initfile" | "syspath" | "nosearch",
             "target": "top" | "dotted" | "missing" | "missing_dotted",   # dotted: an object path below the top-level name
-            "pth": bool,               # a site-style .pth file with an `import <top>` line in the search root
+            "pth": bool | "editable",  # a site-style .pth file with an `import <top>` line in the search root; "editable": the line
+                                       # names a setuptools-style `__editable___<top>_finder.py` whose MAPPING is not a literal and
+                                       # whose top-level assignments have a side effect (the finder may only parse it)
             "via": "load" | "git",     # (static) git: the tree is committed and loaded with griffe.load_git(ref="HEAD")
             "op": "load" | "inspect" | "inspect_paths", "inspect_at": int,   # (fault) griffe.inspect(name, filepath=..) without/with import_paths
             "construct": "kwargs" | "attrs",   # attrs: GriffeLoader built with the opposite inspection settings, then the public
@@ -20,6 +22,8 @@ Model (JSON):
                                                              # source-less name.pyc (importable, invisible to the finder) /
                                                              # garbage extension-module file at top level
             "root": 0 | 1,            # which of the two search roots holds it
+            "stdname": int,           # (pkgs[0], layouts pyc/so) index into STD_NAMES: the compiled-only top-level module merely
+                                      # shares the name of a standard-library module (this, nntplib, ...)
             "sibling": bool,          # (pkgs[1:]) named "_<pkgs[0] name>": the private sibling that resolve_external=None loads
             "stubs_pkg": bool,        # a "<name>-stubs" package next to it
             "top": node}              # the top module ("p" node; for layouts mod/pyc/so only its own fields are used)
@@ -60,11 +64,17 @@ def base_name(case) -> str:
     return f"vq{h}"
 
 
+STD_NAMES = [None, None, None, "this", "nntplib", "sndhdr", "telnetlib", "xdrlib"]  # stdlib names nobody has imported
+
+
 def pkg_names(case) -> list[str]:
     base = base_name(case)
     names = []
     for i, pkg in enumerate(case["pkgs"]):
-        if i > 0 and pkg.get("sibling") and f"_{names[0]}" not in names:
+        std = STD_NAMES[pkg.get("stdname", 0) % len(STD_NAMES)] if i == 0 and pkg["layout"] in ("pyc", "so") else None
+        if std:
+            names.append(std)
+        elif i > 0 and pkg.get("sibling") and f"_{names[0]}" not in names:
             names.append(f"_{names[0]}")
         else:
             names.append(f"{base}{'abc'[i]}")
@@ -250,7 +260,15 @@ def render(case, sentinel: str) -> dict:
             else:
                 root[d["rel"]] = GARBAGE
             out_decoys.append(d)
-    if case.get("pth"):
+    if case.get("pth") == "editable":
+        # an editable-install finder module: CPython's site would import it; Griffe's finder must only *parse* it
+        mod = f"__editable___{names[0].strip('_')}_finder"
+        files[0][f"{names[0]}.pth"] = f"import {mod}\n".encode()
+        files[0][f"{mod}.py"] = (
+            f"_hit = open({sentinel!r}, 'a').write({mod + chr(10)!r})\n_BASE = '/nonexistent-c15/src'\n"
+            f"MAPPING = dict({names[0].strip('_')}=_BASE + '/{names[0]}')\n"
+        ).encode()
+    elif case.get("pth"):
         # what site.py would *execute*; Griffe's finder must only read it
         files[0][f"{names[0]}.pth"] = f"import {names[0]}\n".encode()
     return {"names": names, "files": files, "modules": mods, "decoys": out_decoys, "fault_module": fault_mod, "tamper_module": tamper_mod, "missing": missing, "zips": zips}
@@ -297,6 +315,7 @@ def strategy():
             {
                 "layout": st.sampled_from(layouts),
                 "root": st.sampled_from([0, 0, 1]),
+                "stdname": st.integers(0, len(STD_NAMES) - 1),
                 "sibling": st.booleans(),
                 "stubs_pkg": st.sampled_from([False, False, True]),
                 "top": top,
@@ -327,7 +346,7 @@ def strategy():
             "opts": opts,
             "how": hows,
             "target": targets,
-            "pth": st.sampled_from([False, False, True]),
+            "pth": st.sampled_from([False, False, True, "editable"]),
             "construct": st.sampled_from(["kwargs", "kwargs", "attrs"]),
             "via": st.sampled_from(["load"] * 5 + ["git"]),  # git: commit the tree, load it with griffe.load_git(ref="HEAD")
         }
@@ -340,7 +359,7 @@ def strategy():
             "force": st.sampled_from([True, True, True, False]),
             "how": st.sampled_from(["name", "name", "pathstr", "syspath", "initfile"]),
             "target": targets,
-            "pth": st.just(False),
+            "pth": st.sampled_from([False, False, "editable"]),
             "op": st.sampled_from(["load", "load", "load", "inspect", "inspect", "inspect_paths"]),  # inspect: griffe.inspect(name, filepath=...)
             "inspect_at": st.integers(0, 11),
             "construct": st.sampled_from(["kwargs", "kwargs", "attrs"]),
